@@ -301,7 +301,51 @@ def r4_scan_shape(ctx):
         ctx.bad("replace|empty-pattern-branch", r.where(), "replace no longer special-cases the empty pattern: the find loop never advances")
 
 
-RULES = [("C13-R1", r1_no_failing_index), ("C13-R2", r2_slice_clamps), ("C13-R4", r4_scan_shape)]
+def r5_units_and_positions(ctx):
+    """Two small agreements the round-trip and replace clauses rest on.
+    (a) join puts a separator before every element but the first - a function of the element's *position*, never of what has
+        been written so far (elements may render as empty text: `",a".split(",")` starts with one).
+    (b) an offset delivered by char_indices is the byte offset of a character; the only thing added to it is that character's
+        own byte width."""
+    j = ctx.need("builtins::array::ArrayBuiltin::join")
+    ctx.touch(j)
+    seps = [c for c in j.calls() if (c.callee or "").endswith("push_str") and sh(ne(j.deep(c.args[1]))) == "sep"]
+    for c in seps:
+        guards = [(j.switch_info(S), sh(ne(j.deep(j.blocks[S]["t"]["d"]))) + " /* " + sh(ne(j.expr(j.blocks[S]["t"]["d"], 4))) + " */", al) for S, al in j.constraints(c.block)]
+        pos = [g for g in guards if g[0]["kind"] == "bin" and re.search(r"enumerate\(.*\)@Some\.0\.0", g[1]) and re.match(r"^(Gt|Ne|Ge)\(.*,(0|1)\) /\*", g[1])]
+        other = [g for g in guards if g[0]["kind"] in ("bin", "call", "un", "multi", "place") and g not in pos]
+        state = [g for g in other if "buffer" in g[1] or "len(" in g[1] and "sep" not in g[1] and "array" not in g[1]]
+        if pos and not other:
+            ctx.ok("join|separator-by-position", j.where(c.block), "separator pushed when the element index is > 0")
+        elif state:
+            ctx.bad("join|separator-by-output", j.where(c.block), "join decides whether to write the separator from what has been written so far (`%s`), not from the element's position: leading elements that render as empty text lose their separator, so `s.split(sep).join(sep)` is not s when s starts with the separator" % state[0][1].split("/* ")[-1].rstrip(" */")[:50])
+        elif not pos:
+            ctx.bad("join|separator-guard|%s" % (other[0][1][:30] if other else "none"), j.where(c.block), "join's separator is not guarded by `index > 0` (guards: %s)" % [g[1][:40] for g in guards][:3])
+        else:
+            ctx.bad("join|separator-extra-guard|%s" % other[0][1][:30], j.where(c.block), "join writes the separator only under the additional condition `%s`" % other[0][1][:50])
+    ctx.floor("separator pushes in join", len(seps), 1)
+    n = 0
+    for fn in [f for f in ctx.lib.fns.values() if f.file in ("src/builtins/replace.rs", "src/builtins/string.rs", "src/builtins/tw.rs", "src/builtins/array.rs")]:
+        for b in sorted(fn.live):
+            for st in fn.blocks[b]["s"]:
+                rv = st["rv"]
+                if rv["k"] != "bin" or not rv["op"].startswith(("Add", "Sub")):
+                    continue
+                a, bb = sh(ne(fn.deep(rv["a"]))), sh(ne(fn.deep(rv["b"])))
+                for off, other in ((a, bb), (bb, a)):
+                    m = re.match(r"^(next\(into_iter\(char_indices\(.*\)\)\)@Some\.0)\.0$", off)
+                    if not m:
+                        continue
+                    n += 1
+                    ctx.touch(fn)
+                    if other == "len_utf8(%s.1)" % m.group(1):
+                        ctx.ok("units|%s|offset+width" % fn.id.split("::")[-1], fn.where(b), "byte offset + len_utf8 of the same character")
+                    else:
+                        ctx.bad("units|%s|offset+%s" % (fn.id.split("::")[-1], other[:20]), fn.where(b), "%s adds `%s` to a byte offset delivered by char_indices: the next character starts len_utf8(ch) bytes further, so the result is wrong whenever that character is wider than one byte" % (fn.id.split("::")[-1], other[:40]))
+    ctx.floor("arithmetic on char_indices offsets", n, 1)
+
+
+RULES = [("C13-R1", r1_no_failing_index), ("C13-R2", r2_slice_clamps), ("C13-R4", r4_scan_shape), ("C13-R5", r5_units_and_positions)]
 
 EXPLANATION = (
     "Thin by design: functional correctness of a hand-written matcher over all string pairs is not decidable here (a "
@@ -311,7 +355,7 @@ EXPLANATION = (
     "bounds, counts negative indexes from the end, clamps to [0, character count] before skip/take(end - start), len counts "
     "characters; R4 scan shape of every search loop in find (anchor searched from the current offset, every round resumes at "
     "index + 1, loop runs while offset < hlen, success returns the compared position) and of replace (gap then replacement, "
-    "cursor at index + len(from), empty pattern special-cased). Not decided: first-occurrence correctness as such, the "
+    "cursor at index + len(from), empty pattern special-cased); R5 join writes its separator as a function of the element position only (never of the text written so far), and an offset delivered by char_indices is only ever advanced by len_utf8 of the same character. Not decided: first-occurrence correctness as such, the "
     "critical factorisation, split/join round trip, Unicode case mapping."
 )
 ASSUMPTIONS = ["memchr returns the first index >= offset of the byte, or the haystack length", "named exceptions in rules/c13.py"]
